@@ -30,7 +30,9 @@ ERR = {SyntaxError: "ESyntax", ValueError: "EValue", KeyError: "ELookup", Runtim
        TypeError: "EInternal", AttributeError: "EInternal", IndexError: "EInternal", RecursionError: "EInternal"}
 
 IMPORTS = r"""From VF Require Import GenNorm GenHedge GenTerm GenOpTable Core ShuntingYard Antecedent.
+Import ListNotations.
 Local Open Scope string_scope.
+Local Open Scope list_scope.
 Definition c06_membership (tbl : oracle) (t : term float) (x : float) : result float :=
   match t with TShape _ s => Ok (@shape_membership float (NumF true tbl) s x) | _ => Err EInternal end.
 Definition res_feq (a b : result float) : bool :=
